@@ -8,7 +8,7 @@ EXPLANATION = (
     "entry state of a poll invocation; the (block, state) graph is explored to a fix-point. Checked for ALL reachable states: K6 — no cycle made "
     "only of non-consuming edges inside one poll (unbounded work in one step); K5 — at every `Return Pending` that is not the direct Pending of a "
     "consumer sink (back-pressure), every enabled source was polled to Pending in this invocation and no buffered work is left unattempted; K4 — no "
-    "such park while a sink holds unflushed data whose flush is not pending. CPU time and executor fairness are NOT decided.")
+    "such park while a sink holds unflushed data whose flush is not pending. The two sink combinators are checked separately (sweep rules: Ready only after a complete sweep, Pending only from an entry). CPU time and executor fairness are NOT decided.")
 ASSUMPTIONS = ["operation table of DESIGN §5 (mpsc::Receiver registers its waker only when it returns Pending; StreamMap::poll_next returns Ready(None) iff empty; a boxed peer sink/stream may answer anything at any time)"]
 
 
@@ -20,3 +20,9 @@ def run(ctx):
         ctx.floor("C09.%s.park-sites" % which, ex.returns["Pending"], 1)
         ctx.ok("C09.explored", "%s router: %d reachable persistent states, %d (block,state) nodes, %d Pending / %d Ready returns examined for K4/K5, whole graph for K6"
                % (which, len(ex.persistent), len(ex.it.nodes), ex.returns["Pending"], ex.returns["Ready"]), cfg.body.span)
+    # PollAI treats the sink combinators' operations as atomic ("flush: Pending | Ready"); that abstraction is only right if a Ready from
+    # them really means every entry was polled in that call and a Pending came from an entry (which then holds the waker): sweep rules
+    from . import sweeps
+    for m in ("poll_ready", "poll_flush", "poll_close"):
+        sweeps.fanout_sweep(ctx, F, "C09.D2", m)
+        sweeps.router_retain(ctx, F, "C09.D2", m)
